@@ -18,10 +18,11 @@ Definition g_F1_query (caps : list (string * string)) (s : slashes) (fixed_F4 : 
   | _ => false
   end.
 
-(** C13-F2: Header(name) with a name that is not in canonical form, for a header that is present *)
-Definition g_F2_query (L : lreq) (q : query) : bool :=
+(** C13-F2: Header(name) with a name that is not in canonical form, for a header that is present
+    (Host counts as a header once grpcv3 knows it, [fixed_F6]; before that it is C13-F6's) *)
+Definition g_F2_query (fixed_F6 : bool) (L : lreq) (q : query) : bool :=
   match q with
-  | QHeader n => negb (String.eqb (canon n) n) && negb (String.eqb (canon n) "Host") &&
+  | QHeader n => negb (String.eqb (canon n) n) && (fixed_F6 || negb (String.eqb (canon n) "Host")) &&
                  nonempty (header_http (http_hdrs L) (l_host L) n)
   | _ => false
   end.
@@ -42,7 +43,7 @@ Definition g_F4_query (s : slashes) (L : lreq) (q : query) : bool :=
   end.
 
 Definition g_F4_decision (s : slashes) (L : lreq) : bool :=
-  match s with SOff => GoUrl.contains "%2F" (l_rawpath L) | _ => false end.
+  match s with SOff => contains_encoded_slash (l_rawpath L) | _ => false end.
 
 (** C13-F5, read side: a Cookie line with a part that is not of the plain form [ *SP token "=" *octet ] *)
 Definition plain_value_byte (c : ascii) : bool :=
@@ -69,10 +70,17 @@ Definition g_F5_adds (adds : list add) : bool :=
   existsb (fun kv => negb (cookie_name_valid (fst kv)) || negb (String.eqb (sanitize_cookie_value (snd kv)) (snd kv)))
           (upstream_cookies adds).
 
-(** C13-F6: the Host header through Header() / Headers() *)
+(** C13-F6: the Host header through Header() *)
 Definition g_F6_query (q : query) : bool :=
   match q with
   | QHeader n => String.eqb (canon n) "Host"
+  | _ => false
+  end.
+
+(** C13-F8: Headers() as a whole: the HTTP contexts add the Host key, grpcv3 does not (its own unit
+    test pins the map) *)
+Definition g_F8_query (q : query) : bool :=
+  match q with
   | QHeaders => true
   | _ => false
   end.
@@ -339,19 +347,20 @@ Qed.
 Lemma join_single_sep s1 s2 (vs : list string) : (length vs <= 1)%nat -> join s1 vs = join s2 vs.
 Proof. destruct vs as [|v [|w vs]]; simpl; intro H; try reflexivity. lia. Qed.
 
-(** C13, headers: a canonical name other than Host reads the same value through both accessors *)
-Lemma header_agree decode L n :
+(** C13, headers: a canonical name other than Host finds in Envoy's canonicalised map what
+    requestcontext's Header() answers *)
+Lemma header_map_agree L k :
   forallb wf_hdr (l_hdrs L) = true ->
   (length (values "Cookie" (http_hdrs_wire L)) <= 1)%nat ->
-  canon n = n -> String.eqb n "Host" = false ->
-  a_header (acc_http decode L) n = a_header (acc_envoy decode (mk_envoy L)) n.
+  canon k = k -> String.eqb k "Host" = false ->
+  header_http (http_hdrs L) (l_host L) k = assoc k (canonicalize_headers (envoy_wire_hdrs L)).
 Proof.
-  intros H Hc Hn Hh. cbn [a_header acc_http acc_envoy mk_envoy e_hdrs].
+  intros H Hc Hn Hh.
   unfold header_http. rewrite Hn, Hh. rewrite http_hdrs_wf by exact H.
   unfold http_hdrs_wire. rewrite values_wire_lower by assumption.
   unfold assoc. rewrite envoy_lookup_canonical by assumption.
-  destruct (vals_lower (lower n) (l_hdrs L)) as [|v vs] eqn:E; [reflexivity|].
-  unfold envoy_sep. destruct (String.eqb (lower n) "cookie") eqn:Ec; [|reflexivity].
+  destruct (vals_lower (lower k) (l_hdrs L)) as [|v vs] eqn:E; [reflexivity|].
+  unfold envoy_sep. destruct (String.eqb (lower k) "cookie") eqn:Ec; [|reflexivity].
   (* the Cookie header: at most one line *)
   apply join_single_sep. rewrite <- E.
   assert (Hck : canon "Cookie" = "Cookie") by reflexivity.
@@ -744,7 +753,7 @@ Section Agree.
     unfold g_F4_decision, slash_switch, set_caps, unescape_caps, http_mech, unesc_caps, is_on.
     cbn [rv_method rv_scheme rv_host rv_path rv_rawpath rv_query rv_caps rv_ips option_map].
     destruct (r_slashes rl); try reflexivity.
-    destruct (GoUrl.contains "%2F" (l_rawpath L)); reflexivity.
+    destruct (contains_encoded_slash (l_rawpath L)); reflexivity.
   Qed.
 
   Lemma mech_view_envoy fixed1 fixed4 L rl caps :
@@ -758,13 +767,14 @@ Section Agree.
     destruct fixed1, fixed4; destruct (r_slashes rl);
       cbn [rv_method rv_scheme rv_host rv_path rv_rawpath rv_query rv_caps rv_ips option_map
            e_method e_scheme e_host e_path e_query e_xff andb]; try reflexivity;
-      destruct (GoUrl.contains "%2F" (l_rawpath L)); reflexivity.
+      destruct (contains_encoded_slash (l_rawpath L)); reflexivity.
   Qed.
 
-  (** all the guards of one read of the view *)
-  Definition guard_query (fixed_F1 fixed_F4 : bool) (s : slashes) (caps : list (string * string)) (L : lreq) (q : query) : bool :=
-    (negb fixed_F1 && g_F1_query caps s fixed_F4 q) || g_F2_query L q || (negb fixed_F4 && g_F4_query s L q) ||
-    g_F5_query L q || g_F6_query q || g_F7_query decode L q.
+  (** all the guards of one read of the view; the guard of a repaired finding is off *)
+  Definition guard_query (fx : fixes) (s : slashes) (caps : list (string * string)) (L : lreq) (q : query) : bool :=
+    (negb (fx_F1 fx) && g_F1_query caps s (fx_F4 fx) q) || (negb (fx_F2 fx) && g_F2_query (fx_F6 fx) L q) ||
+    (negb (fx_F4 fx) && g_F4_query s L q) || g_F5_query L q || (negb (fx_F6 fx) && g_F6_query q) ||
+    (negb (fx_F7 fx) && g_F7_query decode L q) || g_F8_query q.
 
   Lemma assoc_opt_unesc_none s n caps :
     existsb (String.eqb n) (map fst caps) = false -> assoc_opt n (unesc_caps s caps) = None.
@@ -773,9 +783,9 @@ Section Agree.
     intro H. apply orb_false_iff in H as [H1 H2]. rewrite String.eqb_sym, H1. apply IH. exact H2.
   Qed.
 
-  Lemma cookie_agree L n :
+  Lemma cookie_agree fx L n :
     wf_lreqb L = true -> forallb plain_line (values "Cookie" (http_hdrs L)) = true ->
-    a_cookie (acc_http decode L) n = a_cookie (acc_envoy decode (mk_envoy L)) n.
+    a_cookie (acc_http decode L) n = a_cookie (acc_envoy decode fx (mk_envoy L)) n.
   Proof.
     intros W P. destruct (wf_parts L W) as (Hh & Hc & _).
     cbn [a_cookie acc_http acc_envoy mk_envoy e_hdrs]. unfold envoy_cookie.
@@ -790,30 +800,69 @@ Section Agree.
     - cbn [length] in Hc. lia.
   Qed.
 
+  (** Header(n): the two accessors, for every combination of the repairs of F2 and F6 *)
+  Lemma header_agree fx L n :
+    wf_lreqb L = true ->
+    negb (fx_F2 fx) && g_F2_query (fx_F6 fx) L (QHeader n) = false ->
+    negb (fx_F6 fx) && g_F6_query (QHeader n) = false ->
+    header_http (http_hdrs L) (l_host L) n =
+    header_envoy fx (canonicalize_headers (envoy_wire_hdrs L)) (l_host L) n.
+  Proof.
+    intros W G2 G6. destruct (wf_parts L W) as (Hh & Hc & Hhost & _).
+    cbn [g_F2_query g_F6_query] in G2, G6. unfold header_envoy.
+    destruct (String.eqb (canon n) "Host") eqn:CH.
+    - (* the Host header *)
+      destruct (fx_F6 fx) eqn:F6; [|discriminate]. cbn [negb andb orb] in G2.
+      assert (HH : header_http (http_hdrs L) (l_host L) n = l_host L) by (unfold header_http; rewrite CH; reflexivity).
+      destruct (fx_F2 fx) eqn:F2.
+      + rewrite CH. cbn [andb]. exact HH.
+      + cbn [negb andb] in G2. rewrite HH, Hhost, !andb_true_r in G2.
+        apply negb_false_iff, String.eqb_eq in G2. rewrite G2 in CH. rewrite CH. cbn [andb]. exact HH.
+    - (* any other header *)
+      assert (NH : forall k, canon k = k -> String.eqb (canon n) k = true -> String.eqb k "Host" = false).
+      { intros k _ E. apply String.eqb_eq in E. subst k. exact CH. }
+      destruct (fx_F2 fx) eqn:F2.
+      + (* grpcv3 canonicalises: the key is canon n *)
+        rewrite CH, andb_false_r.
+        rewrite <- (header_map_agree L (canon n) Hh Hc (canon_idem n) CH).
+        unfold header_http. rewrite canon_idem. reflexivity.
+      + cbn [negb andb] in G2. rewrite orb_true_r, andb_true_r in G2.
+        destruct (String.eqb (canon n) n) eqn:Cn.
+        * apply String.eqb_eq in Cn. rewrite <- Cn at 2. rewrite CH, andb_false_r.
+          rewrite <- Cn at 2. rewrite <- (header_map_agree L (canon n) Hh Hc (canon_idem n) CH).
+          unfold header_http. rewrite canon_idem. reflexivity.
+        * cbn [negb andb] in G2. apply negb_false_iff, String.eqb_eq in G2. rewrite G2.
+          assert (NHn : String.eqb n "Host" = false).
+          { apply String.eqb_neq. intro E. subst n. discriminate. }
+          rewrite NHn, andb_false_r.
+          unfold assoc. rewrite assoc_opt_noncanonical; [reflexivity|].
+          intro E. rewrite E, eqb_refl_s in Cn. discriminate.
+  Qed.
+
   (** C13, the view: every read of the view that no guard covers gives the same answer at the
       HTTP entry points and at the Envoy entry point *)
-  Theorem answer_agree fixed1 fixed4 L s caps q :
-    wf_lreqb L = true -> guard_query fixed1 fixed4 s caps L q = false ->
+  Theorem answer_agree fx L s caps q :
+    wf_lreqb L = true -> guard_query fx s caps L q = false ->
     answer (acc_http decode L) (http_mech L s caps) q =
-    answer (acc_envoy decode (mk_envoy L)) (envoy_mech fixed1 fixed4 L s caps) q.
+    answer (acc_envoy decode fx (mk_envoy L)) (envoy_mech (fx_F1 fx) (fx_F4 fx) L s caps) q.
   Proof.
     intros W G. unfold guard_query in G.
     repeat (apply orb_false_iff in G as [G ?]).
-    rename G into G1, H3 into G2, H2 into G4, H1 into G5, H0 into G6, H into G7.
+    rename G into G1, H4 into G2, H3 into G4, H2 into G5, H1 into G6, H0 into G7, H into G8.
     destruct (wf_parts L W) as (Hh & Hc & Hhost & Hs & Hv & p & Hu).
     destruct q; cbn [answer http_mech envoy_mech rv_method rv_scheme rv_host rv_path rv_rawpath rv_query rv_caps rv_ips];
       try reflexivity.
     - (* QPath *)
-      destruct fixed4; [reflexivity|]. cbn [negb andb g_F4_query] in G4.
+      destruct (fx_F4 fx); [reflexivity|]. cbn [negb andb g_F4_query] in G4.
       apply negb_false_iff, String.eqb_eq in G4. rewrite G4. reflexivity.
     - (* QRawPath *)
-      destruct fixed4.
-      + destruct fixed1; [reflexivity|]. cbn [negb andb g_F1_query] in G1. rewrite G1. reflexivity.
+      destruct (fx_F4 fx).
+      + destruct (fx_F1 fx); [reflexivity|]. cbn [negb andb g_F1_query] in G1. rewrite G1. reflexivity.
       + cbn [negb andb g_F4_query] in G4. destruct s; try reflexivity;
           rewrite (nonempty_slash _ Hs) in G4; discriminate.
     - (* QUrl *)
-      destruct fixed4.
-      + destruct fixed1; [reflexivity|]. cbn [negb andb g_F1_query] in G1.
+      destruct (fx_F4 fx).
+      + destruct (fx_F1 fx); [reflexivity|]. cbn [negb andb g_F1_query] in G1.
         unfold url_string, http_mech, envoy_mech. cbn [rv_scheme rv_host rv_path rv_rawpath rv_query andb]. rewrite G1. reflexivity.
       + cbn [negb andb g_F4_query] in G4. apply negb_false_iff, String.eqb_eq in G4.
         unfold url_string, http_mech, envoy_mech. cbn [rv_scheme rv_host rv_path rv_rawpath rv_query].
@@ -823,35 +872,32 @@ Section Agree.
           by (destruct (is_on s); auto).
         rewrite (escaped_path_plain (l_rawpath L) "" G4) by auto. reflexivity.
     - (* QCapture *)
-      destruct fixed1; [reflexivity|]. cbn [negb andb g_F1_query] in G1.
+      destruct (fx_F1 fx); [reflexivity|]. cbn [negb andb g_F1_query] in G1.
       rewrite (assoc_opt_unesc_none s n caps G1). reflexivity.
     - (* QCaptures *)
-      destruct fixed1; [reflexivity|]. cbn [negb andb g_F1_query] in G1.
+      destruct (fx_F1 fx); [reflexivity|]. cbn [negb andb g_F1_query] in G1.
       apply negb_false_iff in G1. destruct caps; [reflexivity | discriminate].
     - (* QHeader *)
-      f_equal. cbn [g_F6_query] in G6. cbn [g_F2_query] in G2.
-      destruct (String.eqb (canon n) n) eqn:Cn.
-      + apply String.eqb_eq in Cn. apply header_agree; try assumption. rewrite <- Cn. exact G6.
-      + cbn [negb andb] in G2. rewrite G6 in G2. cbn [negb andb] in G2.
-        apply negb_false_iff, String.eqb_eq in G2.
-        cbn [a_header acc_http acc_envoy mk_envoy e_hdrs]. rewrite G2.
-        unfold assoc. rewrite assoc_opt_noncanonical; [reflexivity|].
-        intro E. rewrite E, eqb_refl_s in Cn. discriminate.
+      f_equal. cbn [a_header acc_http acc_envoy mk_envoy e_hdrs e_host]. apply header_agree; assumption.
     - (* QHeaders *) discriminate.
     - (* QCookie *)
       f_equal. cbn [g_F5_query] in G5. apply negb_false_iff in G5. apply cookie_agree; assumption.
     - (* QBody *)
-      cbn [a_body acc_http acc_envoy mk_envoy e_hdrs e_body]. unfold body_http.
+      cbn [a_body acc_http acc_envoy mk_envoy e_hdrs e_body e_host]. unfold body_http.
       assert (Ct : header_http (http_hdrs L) (l_host L) "Content-Type" =
-                   assoc "Content-Type" (canonicalize_headers (envoy_wire_hdrs L))).
-      { apply (header_agree decode L "Content-Type"); try assumption; reflexivity. }
+                   header_envoy fx (canonicalize_headers (envoy_wire_hdrs L)) (l_host L) "Content-Type").
+      { apply header_agree; [exact W| |].
+        - cbn [g_F2_query]. change (canon "Content-Type") with "Content-Type". rewrite eqb_refl_s.
+          cbn [negb andb]. apply andb_false_r.
+        - cbn [g_F6_query]. change (canon "Content-Type") with "Content-Type". cbn. apply andb_false_r. }
       cbn [g_F7_query] in G7. rewrite <- Ct.
       destruct (String.eqb (l_body L) "") eqn:B.
-      + cbn [andb] in G7. apply negb_false_iff in G7. apply String.eqb_eq in B. rewrite B.
+      + destruct (fx_F7 fx); [reflexivity|]. cbn [negb andb] in G7. apply negb_false_iff in G7.
+        apply String.eqb_eq in B. rewrite B.
         unfold value_is in G7.
         destruct (decode (header_http (http_hdrs L) (l_host L) "Content-Type") "") as [| |?|?|x]; try discriminate.
         apply String.eqb_eq in G7. subst x. reflexivity.
-      + reflexivity.
+      + rewrite andb_false_r. reflexivity.
   Qed.
 End Agree.
 
@@ -882,14 +928,14 @@ Qed.
 Lemma get_join_single k (h : hdrs) : (length (values k h) <= 1)%nat -> get k h = join "," (values k h).
 Proof. unfold get. destruct (values k h) as [|v [|w r]]; cbn; intro H; try reflexivity. lia. Qed.
 
-(** C13, hand-over: without a pipeline header added twice and without cookie values that net/http
-    rewrites, the three Finalize hand the same headers and cookies over *)
-Theorem same_upstream adds :
-  g_F3_adds adds = false -> g_F5_adds adds = false ->
-  finalize_decision adds = finalize_proxy adds /\ finalize_decision adds = finalize_envoy adds.
+(** C13, hand-over: without a pipeline header added twice (or with the repair of C13-F3) and without
+    cookie values that net/http rewrites, the three Finalize hand the same headers and cookies over *)
+Theorem same_upstream fixed3 adds :
+  negb fixed3 && g_F3_adds adds = false -> g_F5_adds adds = false ->
+  finalize_decision fixed3 adds = finalize_proxy fixed3 adds /\ finalize_decision fixed3 adds = finalize_envoy adds.
 Proof.
-  intros G3 G5. unfold g_F3_adds in G3. unfold g_F5_adds in G5.
-  pose proof (existsb_false_forall _ _ G3) as H3. pose proof (existsb_false_forall _ _ G5) as H5. clear G3 G5.
+  intros G3 G5. unfold g_F5_adds in G5.
+  pose proof (existsb_false_forall _ _ G5) as H5. clear G5.
   assert (Ck : forall l, (forall x, In x l -> negb (cookie_name_valid (fst x)) || negb (String.eqb (sanitize_cookie_value (snd x)) (snd x)) = false) ->
                flat_map (fun kv : string * string => if cookie_name_valid (fst kv) then [(fst kv, sanitize_cookie_value (snd kv))] else []) l = l /\
                map (fun kv : string * string => (fst kv, sanitize_cookie_value (snd kv))) l = l).
@@ -900,8 +946,10 @@ Proof.
     cbn [flat_map map fst snd]. rewrite Hn, Hv. cbn [app]. rewrite I1, I2. split; reflexivity. }
   destruct (Ck _ H5) as [C1 C2].
   unfold finalize_decision, finalize_proxy, finalize_envoy. rewrite C1, C2. split; [reflexivity|].
-  f_equal. apply map_ext_in. intros k Hk. f_equal. apply get_join_single.
-  specialize (H3 k Hk). apply Nat.ltb_ge in H3. exact H3.
+  f_equal. apply map_ext_in. intros k Hk. f_equal. unfold handed_value.
+  destruct fixed3; [reflexivity|]. cbn [negb andb] in G3. unfold g_F3_adds in G3.
+  pose proof (existsb_false_forall _ _ G3 k Hk) as H3. apply Nat.ltb_ge in H3.
+  apply get_join_single. exact H3.
 Qed.
 
 (* ------------------------------------------------------------------ the three entry points *)
@@ -912,33 +960,33 @@ Section Main.
 
   (** the guards of one logical request: those of every read the HTTP run makes, of the
       encoded-slash check and of the hand-over *)
-  Definition guards_fire (fixed_F1 fixed_F4 : bool) (L : lreq) : bool :=
+  Definition guards_fire (fx : fixes) (L : lreq) : bool :=
     match find (lookup_of (build_http L)) with
     | None => false
     | Some (rl, caps) =>
-      (negb fixed_F4 && g_F4_decision (r_slashes rl) L) ||
+      (negb (fx_F4 fx) && g_F4_decision (r_slashes rl) L) ||
       let ans := answer (acc_http decode L) (http_mech L (r_slashes rl) caps) in
-      existsb (guard_query decode fixed_F1 fixed_F4 (r_slashes rl) caps L) (trace ans (r_prog rl)) ||
-      g_F3_adds (snd (run_prog ans (r_prog rl))) || g_F5_adds (snd (run_prog ans (r_prog rl)))
+      existsb (guard_query decode fx (r_slashes rl) caps L) (trace ans (r_prog rl)) ||
+      (negb (fx_F3 fx) && g_F3_adds (snd (run_prog ans (r_prog rl)))) || g_F5_adds (snd (run_prog ans (r_prog rl)))
     end.
 
   (** C13, the decision and what the pipeline emits: the executor ends alike at the HTTP entry points and at Envoy *)
-  Theorem same_execution fixed1 fixed4 L :
-    wf_lreqb L = true -> guards_fire fixed1 fixed4 L = false ->
-    exec_http decode find L = exec_envoy decode find fixed1 fixed4 L.
+  Theorem same_execution fx L :
+    wf_lreqb L = true -> guards_fire fx L = false ->
+    exec_http decode find L = exec_envoy decode find fx L.
   Proof.
     intros W G. unfold guards_fire in G. unfold exec_http, exec_envoy, execute.
-    pose proof (same_lookup fixed4 L W) as SL.
+    pose proof (same_lookup (fx_F4 fx) L W) as SL.
     destruct (find (lookup_of (build_http L))) as [[rl caps]|] eqn:F.
     - rewrite (mech_view_http find L rl caps W F).
-      rewrite SL in F. rewrite (mech_view_envoy find fixed1 fixed4 L rl caps F).
+      rewrite SL in F. rewrite (mech_view_envoy find (fx_F1 fx) (fx_F4 fx) L rl caps F).
       apply orb_false_iff in G as [G4 G]. cbv zeta in G.
       apply orb_false_iff in G as [G G5]. apply orb_false_iff in G as [Gq G3].
       destruct (g_F4_decision (r_slashes rl) L) eqn:D4.
-      + destruct fixed4; [reflexivity | discriminate].
+      + destruct (fx_F4 fx); [reflexivity | discriminate].
       + rewrite andb_false_r.
         destruct (run_agree (answer (acc_http decode L) (http_mech L (r_slashes rl) caps))
-                            (answer (acc_envoy decode (mk_envoy L)) (envoy_mech fixed1 fixed4 L (r_slashes rl) caps))
+                            (answer (acc_envoy decode fx (mk_envoy L)) (envoy_mech (fx_F1 fx) (fx_F4 fx) L (r_slashes rl) caps))
                             (r_prog rl)) as [R _].
         * intros q Hq. apply answer_agree; [exact W|]. exact (existsb_false_forall _ _ Gq q Hq).
         * rewrite R. reflexivity.
@@ -946,13 +994,13 @@ Section Main.
   Qed.
 
   (** C13: same decision, same matched rule, same hand-over at all three entry points *)
-  Theorem three_entry_points_agree fixed1 fixed4 L :
-    wf_lreqb L = true -> guards_fire fixed1 fixed4 L = false ->
-    serve_decision decode find L = serve_proxy decode find L /\
-    serve_decision decode find L = serve_envoy decode find fixed1 fixed4 L.
+  Theorem three_entry_points_agree fx L :
+    wf_lreqb L = true -> guards_fire fx L = false ->
+    serve_decision decode find fx L = serve_proxy decode find fx L /\
+    serve_decision decode find fx L = serve_envoy decode find fx L.
   Proof.
     intros W G. unfold serve_decision, serve_proxy, serve_envoy.
-    rewrite <- (same_execution fixed1 fixed4 L W G).
+    rewrite <- (same_execution fx L W G).
     unfold guards_fire in G. unfold exec_http, execute in *.
     destruct (find (lookup_of (build_http L))) as [[rl caps]|] eqn:F.
     - rewrite (mech_view_http find L rl caps W F) in *.
@@ -960,32 +1008,34 @@ Section Main.
       apply orb_false_iff in G as [G G5]. apply orb_false_iff in G as [Gq G3].
       destruct (g_F4_decision (r_slashes rl) L) eqn:D4; [split; reflexivity|].
       destruct (run_prog (answer (acc_http decode L) (http_mech L (r_slashes rl) caps)) (r_prog rl)) as [r adds] eqn:R.
-      cbn [snd] in G3, G5. destruct (same_upstream adds G3 G5) as [U1 U2].
+      cbn [snd] in G3, G5. destruct (same_upstream (fx_F3 fx) adds G3 G5) as [U1 U2].
       unfold serve_with. cbn [o_err o_rule o_adds]. rewrite <- U1, <- U2. split; reflexivity.
     - unfold mech_view. rewrite F. split; reflexivity.
   Qed.
 
   (** C13: the HTTP decision service and the proxy service share the context: same decision, same
       rule, same view for every pipeline and every request — no guard *)
-  Theorem decision_proxy_same_execution L :
-    s_err (serve_decision decode find L) = s_err (serve_proxy decode find L) /\
-    s_rule (serve_decision decode find L) = s_rule (serve_proxy decode find L) /\
-    forall adds, ho_headers (finalize_decision adds) = ho_headers (finalize_proxy adds).
+  Theorem decision_proxy_same_execution fx L :
+    s_err (serve_decision decode find fx L) = s_err (serve_proxy decode find fx L) /\
+    s_rule (serve_decision decode find fx L) = s_rule (serve_proxy decode find fx L) /\
+    forall adds, ho_headers (finalize_decision (fx_F3 fx) adds) = ho_headers (finalize_proxy (fx_F3 fx) adds).
   Proof. repeat split. Qed.
 
   (** C13, the view: whatever the pipeline of the matched rule may ask, outside the guards the answer
       is the same (this covers reads that the run at hand does not make) *)
-  Theorem same_view fixed1 fixed4 L rl caps q :
+  Theorem same_view fx L rl caps q :
     wf_lreqb L = true -> find (lookup_of (build_http L)) = Some (rl, caps) ->
     g_F4_decision (r_slashes rl) L = false ->
-    guard_query decode fixed1 fixed4 (r_slashes rl) caps L q = false ->
+    guard_query decode fx (r_slashes rl) caps L q = false ->
     exists vh ve, mech_view find true (build_http L) = inr (rl, vh) /\
-                  mech_view find fixed1 (build_envoy fixed4 (mk_envoy L)) = inr (rl, ve) /\
-                  answer (acc_http decode L) vh q = answer (acc_envoy decode (mk_envoy L)) ve q.
+                  mech_view find (fx_F1 fx) (build_envoy (fx_F4 fx) (mk_envoy L)) = inr (rl, ve) /\
+                  answer (acc_http decode L) vh q = answer (acc_envoy decode fx (mk_envoy L)) ve q.
   Proof.
-    intros W F G4 Gq. exists (http_mech L (r_slashes rl) caps), (envoy_mech fixed1 fixed4 L (r_slashes rl) caps).
+    intros W F G4 Gq.
+    exists (http_mech L (r_slashes rl) caps), (envoy_mech (fx_F1 fx) (fx_F4 fx) L (r_slashes rl) caps).
     rewrite (mech_view_http find L rl caps W F), G4.
-    rewrite (same_lookup fixed4 L W) in F. rewrite (mech_view_envoy find fixed1 fixed4 L rl caps F), G4, andb_false_r.
+    rewrite (same_lookup (fx_F4 fx) L W) in F.
+    rewrite (mech_view_envoy find (fx_F1 fx) (fx_F4 fx) L rl caps F), G4, andb_false_r.
     repeat split. apply answer_agree; assumption.
   Qed.
 
@@ -1001,6 +1051,12 @@ Section Main.
     split; reflexivity.
   Qed.
 End Main.
+
+(** with every candidate repair applied only the cookie findings (C13-F5) and Headers() as a whole
+    (C13-F8) remain guarded *)
+Lemma all_fixed_guards decode s caps L q :
+  guard_query decode all_fixed s caps L q = g_F5_query L q || g_F8_query q.
+Proof. unfold guard_query. cbn [all_fixed fx_F1 fx_F2 fx_F4 fx_F6 fx_F7 negb andb orb]. rewrite !orb_false_r. reflexivity. Qed.
 
 (* ------------------------------------------------------------------ witnesses: every guard is needed, none is vacuous *)
 
@@ -1023,46 +1079,50 @@ Definition w_rule (id : string) (s : slashes) (authz : option cond) (steps : lis
 Definition hdr_step (name : string) (t : tmpl) : step := {| st_if := None; st_cookie := false; st_items := [(name, t)] |}.
 Definition ck_step (name : string) (t : tmpl) : step := {| st_if := None; st_cookie := true; st_items := [(name, t)] |}.
 
-(** C13-F1: the captured value is handed to the upstream as "<no value>" under Envoy; the repaired
-    context agrees with the HTTP entry points on the same request *)
+(** C13-F1 (repaired by fix: b2286d8): the captured value was handed to the upstream as "<no value>"
+    under Envoy; the repaired context agrees with the HTTP entry points on the same request *)
 Definition w1_rule := w_rule "c0" SOff None [hdr_step "X-User" (TEcho (QCapture "name"))].
 Definition w1_req := w_req "GET" "/c0/abc" [] "".
 Definition w1_find := w_find "/c0/abc" w1_rule [("name", "abc")].
 
 Lemma F1_refuted :
   wf_lreqb w1_req = true /\
-  guards_fire w_decode w1_find false false w1_req = true /\
-  guards_fire w_decode w1_find true false w1_req = false /\
-  serve_decision w_decode w1_find w1_req <> serve_envoy w_decode w1_find false false w1_req /\
-  serve_decision w_decode w1_find w1_req = serve_envoy w_decode w1_find true false w1_req.
+  guards_fire w_decode w1_find pinned w1_req = true /\
+  guards_fire w_decode w1_find repo_now w1_req = false /\
+  serve_decision w_decode w1_find pinned w1_req <> serve_envoy w_decode w1_find pinned w1_req /\
+  serve_decision w_decode w1_find repo_now w1_req = serve_envoy w_decode w1_find repo_now w1_req.
 Proof. repeat split; try (vm_compute; reflexivity). vm_compute. intro E. inversion E. Qed.
 
-(** ... and a CEL condition on the capture fails with an internal error under Envoy *)
+(** ... and a CEL condition on the capture failed with an internal error under Envoy *)
 Definition w1b_rule := w_rule "c1" SOff (Some {| cd_q := QCapture "name"; cd_c := "admin" |}) [].
 Definition w1b_find := w_find "/c1/admin" w1b_rule [("name", "admin")].
 Lemma F1_refuted_decision :
-  s_err (serve_decision w_decode w1b_find (w_req "GET" "/c1/admin" [] "")) = None /\
-  s_err (serve_envoy w_decode w1b_find false false (w_req "GET" "/c1/admin" [] "")) = Some EInternal.
-Proof. split; vm_compute; reflexivity. Qed.
+  s_err (serve_decision w_decode w1b_find pinned (w_req "GET" "/c1/admin" [] "")) = None /\
+  s_err (serve_envoy w_decode w1b_find pinned (w_req "GET" "/c1/admin" [] "")) = Some EInternal /\
+  s_err (serve_envoy w_decode w1b_find repo_now (w_req "GET" "/c1/admin" [] "")) = None.
+Proof. repeat split; vm_compute; reflexivity. Qed.
 
-(** C13-F2 *)
+(** C13-F2 (on the tree as it is; the candidate repair removes the difference) *)
 Definition w2_rule := w_rule "c2" SOff (Some {| cd_q := QHeader "x-role"; cd_c := "admin" |}) [].
 Definition w2_req := w_req "GET" "/c2/lit" [("X-Role", "admin")] "".
 Definition w2_find := w_find "/c2/lit" w2_rule [].
-Lemma F2_refuted : forall fixed1 fixed4,
-  wf_lreqb w2_req = true /\ guards_fire w_decode w2_find fixed1 fixed4 w2_req = true /\
-  existsb (g_F2_query w2_req) [QHeader "x-role"] = true /\
-  s_err (serve_decision w_decode w2_find w2_req) = None /\
-  s_err (serve_envoy w_decode w2_find fixed1 fixed4 w2_req) = Some EAuthz.
-Proof. intros [] []; repeat split; vm_compute; reflexivity. Qed.
+Lemma F2_refuted :
+  wf_lreqb w2_req = true /\ guards_fire w_decode w2_find repo_now w2_req = true /\
+  existsb (g_F2_query false w2_req) [QHeader "x-role"] = true /\
+  s_err (serve_decision w_decode w2_find repo_now w2_req) = None /\
+  s_err (serve_envoy w_decode w2_find repo_now w2_req) = Some EAuthz /\
+  guards_fire w_decode w2_find (set_F2 true repo_now) w2_req = false /\
+  s_err (serve_envoy w_decode w2_find (set_F2 true repo_now) w2_req) = None.
+Proof. repeat split; vm_compute; reflexivity. Qed.
 
 (** C13-F3 *)
 Lemma F3_refuted :
   let adds := [AddHeader "X-Out" "one"; AddHeader "x-out" "two"] in
   g_F3_adds adds = true /\ g_F5_adds adds = false /\
-  finalize_decision adds = finalize_proxy adds /\
-  ho_headers (finalize_decision adds) = [("X-Out", "one")] /\
-  ho_headers (finalize_envoy adds) = [("X-Out", "one,two")].
+  finalize_decision false adds = finalize_proxy false adds /\
+  ho_headers (finalize_decision false adds) = [("X-Out", "one")] /\
+  ho_headers (finalize_envoy adds) = [("X-Out", "one,two")] /\
+  finalize_decision true adds = finalize_envoy adds /\ finalize_proxy true adds = finalize_envoy adds.
 Proof. repeat split; vm_compute; reflexivity. Qed.
 
 (** C13-F4: the encoded slash is refused by the HTTP entry points and let through under Envoy;
@@ -1070,49 +1130,53 @@ Proof. repeat split; vm_compute; reflexivity. Qed.
 Definition w4_rule := w_rule "c4" SOff None [hdr_step "X-Path" (TEcho QPath)].
 Definition w4_req := w_req "GET" "/c4/a/b%2Fc" [] "".
 Definition w4_find := w_find "/c4/a/b%2Fc" w4_rule [].
-Lemma F4_refuted : forall fixed1,
-  wf_lreqb w4_req = true /\ g_F4_decision SOff w4_req = true /\ guards_fire w_decode w4_find fixed1 false w4_req = true /\
-  s_err (serve_decision w_decode w4_find w4_req) = Some EArgument /\
-  s_err (serve_envoy w_decode w4_find fixed1 false w4_req) = None /\
-  s_err (serve_envoy w_decode w4_find fixed1 true w4_req) = Some EArgument.
-Proof. intros []; repeat split; vm_compute; reflexivity. Qed.
+Lemma F4_refuted :
+  wf_lreqb w4_req = true /\ g_F4_decision SOff w4_req = true /\ guards_fire w_decode w4_find repo_now w4_req = true /\
+  s_err (serve_decision w_decode w4_find repo_now w4_req) = Some EArgument /\
+  s_err (serve_envoy w_decode w4_find repo_now w4_req) = None /\
+  s_err (serve_envoy w_decode w4_find (set_F4 true repo_now) w4_req) = Some EArgument.
+Proof. repeat split; vm_compute; reflexivity. Qed.
 
 Definition w4b_req := w_req "GET" "/c4/a%20b" [] "".
 Definition w4b_find := w_find "/c4/a%20b" w4_rule [].
-Lemma F4_refuted_view : forall fixed1,
+Lemma F4_refuted_view :
   wf_lreqb w4b_req = true /\ g_F4_query SOff w4b_req QPath = true /\
-  s_handover (serve_decision w_decode w4b_find w4b_req) = Some {| ho_headers := [("X-Path", "/c4/a b")]; ho_cookies := [] |} /\
-  s_handover (serve_envoy w_decode w4b_find fixed1 false w4b_req) = Some {| ho_headers := [("X-Path", "/c4/a%20b")]; ho_cookies := [] |} /\
-  s_handover (serve_envoy w_decode w4b_find fixed1 true w4b_req) = Some {| ho_headers := [("X-Path", "/c4/a b")]; ho_cookies := [] |}.
-Proof. intros []; repeat split; vm_compute; reflexivity. Qed.
+  s_handover (serve_decision w_decode w4b_find repo_now w4b_req) = Some {| ho_headers := [("X-Path", "/c4/a b")]; ho_cookies := [] |} /\
+  s_handover (serve_envoy w_decode w4b_find repo_now w4b_req) = Some {| ho_headers := [("X-Path", "/c4/a%20b")]; ho_cookies := [] |} /\
+  s_handover (serve_envoy w_decode w4b_find (set_F4 true repo_now) w4b_req) = Some {| ho_headers := [("X-Path", "/c4/a b")]; ho_cookies := [] |}.
+Proof. repeat split; vm_compute; reflexivity. Qed.
 
-(** C13-F5: a quoted cookie value is read differently; a value with a space is handed over differently *)
+(** C13-F5: a quoted cookie value is read differently; a value with a space is handed over differently
+    — whatever else is repaired *)
 Definition w5_rule := w_rule "c6" SOff (Some {| cd_q := QCookie "sid"; cd_c := "123" |}) [].
 Definition w5_req := w_req "GET" "/c6/lit" [("Cookie", String "s" (String "i" (String "d" (String "=" (String dquote (String "1" (String "2" (String "3" (String dquote "")))))))))] "".
 Definition w5_find := w_find "/c6/lit" w5_rule [].
-Lemma F5_refuted : forall fixed1 fixed4,
+Lemma F5_refuted :
   wf_lreqb w5_req = true /\ g_F5_query w5_req (QCookie "sid") = true /\
-  guards_fire w_decode w5_find fixed1 fixed4 w5_req = true /\
-  s_err (serve_decision w_decode w5_find w5_req) = None /\
-  s_err (serve_envoy w_decode w5_find fixed1 fixed4 w5_req) = Some EAuthz.
-Proof. intros [] []; repeat split; vm_compute; reflexivity. Qed.
+  guards_fire w_decode w5_find all_fixed w5_req = true /\
+  s_err (serve_decision w_decode w5_find all_fixed w5_req) = None /\
+  s_err (serve_envoy w_decode w5_find all_fixed w5_req) = Some EAuthz /\
+  s_err (serve_envoy w_decode w5_find repo_now w5_req) = Some EAuthz.
+Proof. repeat split; vm_compute; reflexivity. Qed.
 
-Lemma F5_refuted_handover :
+Lemma F5_refuted_handover : forall fixed3,
   let adds := [AddCookie "pc1" "v 1"] in
   g_F5_adds adds = true /\ g_F3_adds adds = false /\
-  finalize_decision adds = finalize_proxy adds /\
-  finalize_decision adds <> finalize_envoy adds.
-Proof. repeat split; try (vm_compute; reflexivity). vm_compute. intro E. inversion E. Qed.
+  finalize_decision fixed3 adds = finalize_proxy fixed3 adds /\
+  finalize_decision fixed3 adds <> finalize_envoy adds.
+Proof. intros []; repeat split; try (vm_compute; reflexivity); vm_compute; intro E; inversion E. Qed.
 
 (** C13-F6 *)
 Definition w6_rule := w_rule "c7" SOff (Some {| cd_q := QHeader "Host"; cd_c := "a.example.com" |}) [].
 Definition w6_req := w_req "GET" "/c7/lit" [] "".
 Definition w6_find := w_find "/c7/lit" w6_rule [].
-Lemma F6_refuted : forall fixed1 fixed4,
-  wf_lreqb w6_req = true /\ g_F6_query (QHeader "Host") = true /\ guards_fire w_decode w6_find fixed1 fixed4 w6_req = true /\
-  s_err (serve_decision w_decode w6_find w6_req) = None /\
-  s_err (serve_envoy w_decode w6_find fixed1 fixed4 w6_req) = Some EAuthz.
-Proof. intros [] []; repeat split; vm_compute; reflexivity. Qed.
+Lemma F6_refuted :
+  wf_lreqb w6_req = true /\ g_F6_query (QHeader "Host") = true /\ guards_fire w_decode w6_find repo_now w6_req = true /\
+  s_err (serve_decision w_decode w6_find repo_now w6_req) = None /\
+  s_err (serve_envoy w_decode w6_find repo_now w6_req) = Some EAuthz /\
+  guards_fire w_decode w6_find (set_F6 true repo_now) w6_req = false /\
+  s_err (serve_envoy w_decode w6_find (set_F6 true repo_now) w6_req) = None.
+Proof. repeat split; vm_compute; reflexivity. Qed.
 
 (** C13-F7: a pipeline that hands the decoded body on *)
 Definition w7_rule : rule :=
@@ -1120,15 +1184,27 @@ Definition w7_rule : rule :=
      r_prog := Ask QBody (fun v => match v with VJson s => Emit (AddHeader "X-Body" s) Allow | _ => Fail EInternal end) |}.
 Definition w7_req := w_req "POST" "/c8/lit" [("Content-Type", "application/x-www-form-urlencoded")] "".
 Definition w7_find := w_find "/c8/lit" w7_rule [].
-Lemma F7_refuted : forall fixed1 fixed4,
-  wf_lreqb w7_req = true /\ g_F7_query w_decode w7_req QBody = true /\ guards_fire w_decode w7_find fixed1 fixed4 w7_req = true /\
-  serve_decision w_decode w7_find w7_req <> serve_envoy w_decode w7_find fixed1 fixed4 w7_req.
-Proof. intros [] []; repeat split; try (vm_compute; reflexivity); vm_compute; intro E; inversion E. Qed.
+Lemma F7_refuted :
+  wf_lreqb w7_req = true /\ g_F7_query w_decode w7_req QBody = true /\ guards_fire w_decode w7_find repo_now w7_req = true /\
+  serve_decision w_decode w7_find repo_now w7_req <> serve_envoy w_decode w7_find repo_now w7_req /\
+  serve_decision w_decode w7_find repo_now w7_req = serve_envoy w_decode w7_find (set_F7 true repo_now) w7_req.
+Proof. repeat split; try (vm_compute; reflexivity); vm_compute; intro E; inversion E. Qed.
 
-(** non-vacuity: a request with headers in odd casing, a cookie, a JSON body and an escaped-free path
-    through a rule whose pipeline reads a capture, a header, a cookie, the body and URL parts in a CEL
-    condition, a step condition and templates: no guard fires for the repaired context, the request is
-    allowed and headers and a cookie are handed over — so the main theorem applies to it *)
+(** C13-F8: Headers() as a whole, whatever else is repaired *)
+Definition w8_rule : rule :=
+  {| r_id := "c7"; r_slashes := SOff;
+     r_prog := Ask QHeaders (fun v => match v with VMap m => Emit (AddHeader "X-Host" (assoc "Host" m)) Allow | _ => Fail EInternal end) |}.
+Definition w8_find := w_find "/c7/lit" w8_rule [].
+Lemma F8_refuted :
+  g_F8_query QHeaders = true /\ guards_fire w_decode w8_find all_fixed w6_req = true /\
+  s_handover (serve_decision w_decode w8_find all_fixed w6_req) = Some {| ho_headers := [("X-Host", "a.example.com")]; ho_cookies := [] |} /\
+  s_handover (serve_envoy w_decode w8_find all_fixed w6_req) = Some {| ho_headers := [("X-Host", "")]; ho_cookies := [] |}.
+Proof. repeat split; vm_compute; reflexivity. Qed.
+
+(** non-vacuity: a request with headers in odd casing, a cookie, a JSON body and an escape-free path
+    through a rule whose pipeline reads a capture, a header, a cookie and URL parts in a CEL
+    condition, a step condition and templates: no guard fires on the tree as it is (C13-F1 repaired),
+    the request is allowed and headers and a cookie are handed over — the main theorem applies to it *)
 Definition nv_rule : rule :=
   w_rule "files" SOn (Some {| cd_q := QHeader "X-Role"; cd_c := "admin,lead" |})
     [ {| st_if := Some {| cd_q := QCookie "sid"; cd_c := "123" |}; st_cookie := false;
@@ -1143,20 +1219,21 @@ Definition nv_req : lreq :=
 Definition nv_find := w_find "/files/report.pdf" nv_rule [("name", "report.pdf")].
 
 Example nonvacuous :
-  wf_lreqb nv_req = true /\ guards_fire w_decode nv_find true true nv_req = false /\ guards_fire w_decode nv_find true false nv_req = false /\
-  serve_envoy w_decode nv_find true true nv_req =
+  wf_lreqb nv_req = true /\ guards_fire w_decode nv_find repo_now nv_req = false /\
+  guards_fire w_decode nv_find all_fixed nv_req = false /\
+  serve_envoy w_decode nv_find repo_now nv_req =
     {| s_err := None; s_rule := "files";
        s_handover := Some {| ho_headers := [("X-User", "report.pdf"); ("X-Path", "/files/report.pdf");
                                             ("X-Url", "https://a.example.com:8443/files/report.pdf?v=2")];
                              ho_cookies := [("session", "dark")] |} |}.
 Proof. repeat split; vm_compute; reflexivity. Qed.
 
-(** the same request through a rule that does not read captures: no guard fires for the pinned context either *)
+(** the same request through a rule that does not read captures: no guard fires for the pinned tree either *)
 Definition nv2_rule : rule :=
   w_rule "files" SNoDecode (Some {| cd_q := QMethod; cd_c := "POST" |}) [hdr_step "X-Q" (TEcho QQuery); ck_step "c" (TEcho (QHeader "Content-Type"))].
 Definition nv2_find := w_find "/files/report.pdf" nv2_rule [("name", "report.pdf")].
 Example nonvacuous_pinned :
-  guards_fire w_decode nv2_find false false nv_req = false /\
-  s_handover (serve_envoy w_decode nv2_find false false nv_req) =
+  guards_fire w_decode nv2_find pinned nv_req = false /\
+  s_handover (serve_envoy w_decode nv2_find pinned nv_req) =
     Some {| ho_headers := [("X-Q", "v=2")]; ho_cookies := [("c", "application/json")] |}.
 Proof. split; vm_compute; reflexivity. Qed.
